@@ -8,7 +8,7 @@ CONSTANTS
  MaxFaults = 2
  MaxSeeks = 0
  Conc = 8
- FixLeak = FALSE
+ FixLeak = TRUE
  PrioAsc = TRUE
  Rs = {2}
  Prios = {0, 1}
